@@ -128,7 +128,10 @@ def runDrive (s : St) : String :=
             let supp := s.doc.toList.any (· ≥ 0xF0)
             let cause := if s.kind == "utf16" && err then "utf16-error-recovery"
               else if s.kind == "utf16" && s.param.startsWith "u16be" && supp then "utf16be-surrogate-pair"
-              else if s.kind == "cancel-resume" && err then "resume-error-recovery"
+              -- the uninterrupted parse went through error recovery (erroneous canonical tree); the resumed parse advances the
+              -- stack versions in another order, so pruning/recovery can end elsewhere — with another repair or (GLR: c07glr,
+              -- thorough seed 1) with an error-free tree.  An ERRONEOUS drive tree against an error-free canonical one is never excused.
+              else if s.kind == "cancel-resume" && hasErr canon.root then "resume-error-recovery"
               else if s.kind == "cancel-resume" && sameModuloStates canon.root t.root then "resume-token-parse-state"
               else "other"
             s!"{base} eq=FAIL {msg} cause={cause} err={if err then 1 else 0}"
